@@ -22,7 +22,10 @@ use std::sync::{Arc, Barrier};
 use std::time::Duration;
 
 const MODEL: &str = include_str!("../../data/c20_model.dmn");
-const INVOCABLES: [&str; 8] = ["Num", "Temp", "Re", "ReHeavy", "Table", "Chain", "Svc", "Deep"];
+const INVOCABLES: [&str; 10] = ["Num", "Temp", "Re", "ReHeavy", "Table", "Chain", "Svc", "Deep", "Zoned", "SvcCall"];
+/// Invocable index v + VARIANT stands for the name of invocable v written with redundant blanks (a name no invocable
+/// has: the call is made like any other and its value - null - compared like any other).
+const VARIANT: usize = 100;
 const INPUTS: usize = 64;
 
 fn input(i: usize) -> FeelContext {
@@ -31,7 +34,30 @@ fn input(i: usize) -> FeelContext {
   c.set_entry(&Name::from("s"), Value::String(format!("t-{}ab{}", i, "b".repeat(i % 4))));
   c.set_entry(&Name::from("d"), Value::String(format!("20{:02}-{:02}-{:02}T{:02}:20:30+0{}:00", 10 + i % 20, 1 + i % 12, 1 + i % 28, i % 24, i % 9)));
   c.set_entry(&Name::from("p"), Value::String(["(b+)", "(a|t)", "([0-9]+)", "(ab)+"][i % 4].to_string()));
+  // named zones on and off the days their offset changes, at hours on both sides of the change
+  let dates = ["2021-03-28", "2021-10-31", "2021-11-07", "2021-03-14", "2021-04-04", "2021-10-03", "2021-06-15"];
+  let zones = ["Europe/Warsaw", "America/New_York", "Australia/Sydney", "Asia/Kolkata"];
+  c.set_entry(&Name::from("z"), Value::String(format!("{}T{:02}:30:00@{}", dates[i % 7], (i * 5) % 24, zones[(i / 7) % 4])));
   c
+}
+
+/// The name a call uses: the invocable's name, or (v >= VARIANT) that name with redundant blanks, `pad` of them trailing.
+fn spelled(v: usize, pad: usize) -> String {
+  if v >= VARIANT {
+    format!(" {} {}", INVOCABLES[v - VARIANT].replace(' ', "  "), " ".repeat(pad))
+  } else {
+    INVOCABLES[v].to_string()
+  }
+}
+
+/// The value as compared: an error value counts as null whatever its message says (the message quotes the name).
+fn shown(v: &Value) -> String {
+  let s = v.to_string();
+  if s.starts_with("null") {
+    "null".to_string()
+  } else {
+    s
+  }
 }
 
 fn evaluator() -> Arc<ModelEvaluator> {
@@ -42,7 +68,10 @@ fn evaluator() -> Arc<ModelEvaluator> {
 /// The k-th call of thread t in the run with this seed: (invocable index, input index).
 fn call_of(seed: u64, t: usize, k: usize) -> (usize, usize) {
   let mut r = Rng::new(seed ^ ((t as u64) << 32) ^ (k as u64).wrapping_mul(0x9E37_79B9_7F4A_7C15));
-  (r.below(INVOCABLES.len() as u64) as usize, r.below(INPUTS as u64) as usize)
+  let v = r.below(INVOCABLES.len() as u64) as usize;
+  let i = r.below(INPUTS as u64) as usize;
+  // one call in sixteen spells the name with redundant blanks
+  (if r.below(16) == 0 { v + VARIANT } else { v }, i)
 }
 
 /// Child side.
@@ -51,14 +80,27 @@ pub fn child_case(c: &J) -> J {
   match c["mode"].as_str().unwrap_or("") {
     "seq" => {
       let mut rows = vec![];
-      for (v, inv) in INVOCABLES.iter().enumerate() {
+      let all: Vec<usize> = (0..INVOCABLES.len()).chain((0..INVOCABLES.len()).map(|v| v + VARIANT)).collect();
+      for v in all {
         for i in 0..INPUTS {
-          let a = me.evaluate_invocable(inv, &input(i)).to_string();
-          let b = me.evaluate_invocable(inv, &input(i)).to_string();
+          let a = shown(&me.evaluate_invocable(&spelled(v, 0), &input(i)));
+          let b = shown(&me.evaluate_invocable(&spelled(v, 0), &input(i)));
           rows.push(json!({"inv": v, "inp": i, "val": a, "same": a == b}));
         }
       }
       json!({"rows": rows})
+    }
+    "seqrev" => {
+      // the same calls, one thread, in the opposite order (a fresh process): a value must not depend on the calls made before it
+      let mut events = vec![];
+      let mut k = 0;
+      for v in (0..INVOCABLES.len()).rev() {
+        for i in (0..INPUTS).rev() {
+          k += 1;
+          events.push(json!([1, k, v, i, shown(&me.evaluate_invocable(INVOCABLES[v], &input(i)))]));
+        }
+      }
+      json!({"events": events, "poisoned": me.verif_poisoned(), "thread_panicked": false})
     }
     "locks" => {
       let n = c["n"].as_u64().unwrap_or(2) as usize;
@@ -70,10 +112,13 @@ pub fn child_case(c: &J) -> J {
           let (me, barrier) = (Arc::clone(&me), Arc::clone(&barrier));
           std::thread::spawn(move || {
             barrier.wait();
-            // one chained call and one other call per thread
+            // per thread: a chained call, a decision that invokes a decision service, a name spelled with
+            // redundant blanks, and one other call
             let (v, i) = call_of(seed, t, 0);
             let _ = me.evaluate_invocable("Chain", &input(i));
-            let _ = me.evaluate_invocable(INVOCABLES[v], &input(i));
+            let _ = me.evaluate_invocable("SvcCall", &input(i));
+            let _ = me.evaluate_invocable(&spelled(VARIANT, t), &input(i));
+            let _ = me.evaluate_invocable(&spelled(v, t), &input(i));
             (v, i)
           })
         })
@@ -126,7 +171,7 @@ pub fn child_case(c: &J) -> J {
                 }
                 _ => {}
               }
-              let val = me.evaluate_invocable(INVOCABLES[v], &input(i)).to_string();
+              let val = shown(&me.evaluate_invocable(&spelled(v, (t * calls + k) % 251), &input(i)));
               out.push(json!([t + 1, k + 1, v, i, val]));
             }
             out
@@ -178,7 +223,7 @@ pub fn check(mut ctx: Ctx, replay: Option<J>) -> ! {
   if rows.iter().any(|r| r["same"] != true) {
     tool_error("the workload is not deterministic when evaluated alone");
   }
-  if rows.iter().filter(|r| r["val"].as_str().map_or(true, |v| v.starts_with("null"))).count() > rows.len() / 10 {
+  if rows.iter().filter(|r| r["inv"].as_u64().unwrap_or(0) < VARIANT as u64 && r["val"].as_str().map_or(true, |v| v.starts_with("null"))).count() > rows.len() / 20 {
     tool_error("the workload evaluates to null too often to be meaningful");
   }
   let seq_path = tlc.write_ndjson("c20_seq.ndjson", &rows.iter().map(|r| json!({"inv": r["inv"], "inp": r["inp"], "val": r["val"]})).collect::<Vec<_>>());
@@ -187,8 +232,9 @@ pub fn check(mut ctx: Ctx, replay: Option<J>) -> ! {
   let mut runs: Vec<J> = vec![];
   if let Some(r) = &replay {
     let c = &r["case"]["record"];
-    runs.push(json!({"mode": "run", "n": c["n"], "calls": c["calls"], "seed": c["seed"]}));
+    runs.push(json!({"mode": if c["seed"] == 0 { "seqrev" } else { "run" }, "n": c["n"], "calls": c["calls"], "seed": c["seed"]}));
   } else {
+    runs.push(json!({"mode": "seqrev", "n": 1, "calls": INVOCABLES.len() * INPUTS, "seed": 0}));
     let mut rng = Rng::new(ctx.seed);
     let reps = if quick { 3 } else { 25 };
     for n in [2u64, 4, 8, 16] {
@@ -237,13 +283,13 @@ pub fn check(mut ctx: Ctx, replay: Option<J>) -> ! {
         a.iter()
           .filter(|e| rows.iter().any(|row| row["inv"] == e[2] && row["inp"] == e[3] && row["val"] != e[4]))
           .take(3)
-          .map(|e| format!("thread {} call {}: {}(input {}) = {}", e[0], e[1], INVOCABLES[e[2].as_u64().unwrap_or(0) as usize], e[3], e[4]))
+          .map(|e| format!("thread {} call {}: {}(input {}) = {}", e[0], e[1], spelled(e[2].as_u64().unwrap_or(0) as usize, 0), e[3], e[4]))
           .collect()
       })
       .unwrap_or_default();
     let invs: std::collections::BTreeSet<String> = r["events"]
       .as_array()
-      .map(|a| a.iter().filter(|e| rows.iter().any(|row| row["inv"] == e[2] && row["inp"] == e[3] && row["val"] != e[4])).map(|e| INVOCABLES[e[2].as_u64().unwrap_or(0) as usize].to_string()).collect())
+      .map(|a| a.iter().filter(|e| rows.iter().any(|row| row["inv"] == e[2] && row["inp"] == e[3] && row["val"] != e[4])).map(|e| spelled(e[2].as_u64().unwrap_or(0) as usize, 0).trim().to_string()).collect())
       .unwrap_or_default();
     let sig = format!("run:{}:{}", why.split_whitespace().take(6).collect::<Vec<_>>().join("-"), invs.into_iter().collect::<Vec<_>>().join("+"));
     let mut keep = r.clone();
